@@ -17,12 +17,20 @@
      (d) reassembly   : from score separation + the C08 grouping / assignment contracts, the
                         output is exactly one instance per visible-edge-connected group;
      (e) the executable `component`/`groups` the harness evaluates compute those groups.
-   Full statement refuted: c03_half_cell_bound_refuted (F10).  Partial: c03_reassembly_partial —
-   score separation is a HYPOTHESIS (measured by the harness on the real scores of every scene),
-   it is not derived from geometric well-separatedness of the ideal PAFs. *)
+     (f) separation derived: the score-separation premise of (d) FOLLOWS from the geometry of the
+                        ideal PAFs (IdealPaf.v: the weights exp(-d^4/2sigma^2) of edge_maps.py, summed
+                        over animals, sampled at the cells make_line_subs reads): own segment within
+                        r2, every other animal's segment beyond R2 (e.g. bounding boxes X apart:
+                        R2 = X^2), cross candidates with at most m of n sampled cells near a segment,
+                        and the numeric margin 3(m/n + A w(R2) + eps) + P < w(r2) kappa - A w(R2) - eps;
+                        c03_reassembly_from_geometry states (d) with that premise instead.
+   Full statement refuted: c03_half_cell_bound_refuted (F10).  c03_reassembly_partial keeps score
+   separation as a HYPOTHESIS (measured by the harness on the real scores of every scene);
+   c03_reassembly_from_geometry derives it for the documented geometric sub-class (the harness evaluates
+   the geometric premise on every scene and checks the derived bounds against the real scores). *)
 From Coq Require Import List ZArith QArith Qabs Reals Qreals Relations.
 Import ListNotations.
-From SV Require Import C03.BottomUp C03.Lemmas.
+From SV Require Import C03.BottomUp C03.Lemmas C03.IdealPaf C03.SepLemmas.
 Local Open Scope Q_scope.
 
 (* ------------------------------------------------------------------ (a) decode *)
@@ -213,6 +221,152 @@ Theorem c03_reassembly_partial :
        forall n' I', nth_error output n' = Some I' -> member (a, i) I' -> n' = n).
 Proof. exact reassembly_from_separation. Qed.
 Print Assumptions c03_reassembly_partial.
+
+(* ------------------------------------------------------------------ (f) separation from geometry *)
+Local Open Scope R_scope.
+
+(* margins instead of saturation: true pairs >= T, cross pairs in [-Clo, Chi], 2 Chi + Clo < T.
+   Then EVERY maximum-total assignment of the forced size min(|S|,|D|) contains every true pair
+   (also when lonely sources face lonely destinations) *)
+Theorem c03_margin_optimum_has_true_pairs :
+  forall (S D : list nat) (sc : nat -> nat -> Q) (T Clo Chi : R),
+  (forall a, In a S -> In a D -> T <= Q2R (sc a a)) ->
+  (forall a b, In a S -> In b D -> a <> b -> Q2R (sc a b) <= Chi) ->
+  (forall a b, In a S -> In b D -> a <> b -> - Clo <= Q2R (sc a b)) ->
+  2 * Chi + Clo < T ->
+  forall M a, optimal S D sc M -> In a S -> In a D -> In (a, a) M.
+Proof. exact margin_optimum_has_true_pairs. Qed.
+Print Assumptions c03_margin_optimum_has_true_pairs.
+
+(* the ideal PAF weight of edge_maps.py: in (0, 1], decreasing in the squared distance *)
+Theorem c03_paf_weight_bounds : forall sigma a b, 0 < sigma -> 0 <= a <= b ->
+  0 < paf_weight sigma b <= paf_weight sigma a /\ paf_weight sigma a <= 1.
+Proof.
+  intros sigma a b Hs H. split; [split; [apply weight_pos|apply weight_antitone; assumption]|apply weight_le_1; exact Hs].
+Qed.
+Print Assumptions c03_paf_weight_bounds.
+
+(* distance_to_edge's clamped projection is the nearest point of the segment ... *)
+Theorem c03_projection_is_nearest : forall g px py tau, 0 < len2 g -> 0 <= tau <= 1 ->
+  seg_d2 g px py <= (tau * e_x g - (px - s_x g)) * (tau * e_x g - (px - s_x g))
+                    + (tau * e_y g - (py - s_y g)) * (tau * e_y g - (py - s_y g)).
+Proof. exact seg_d2_le_point. Qed.
+Print Assumptions c03_projection_is_nearest.
+
+(* ... and a cell at least X outside the bounding box of another animal's segment is at squared
+   distance >= X^2 from it ("animals separated by more than X") *)
+Theorem c03_far_from_box : forall g X px py, 0 <= X -> outside_box g X px py -> X * X <= seg_d2 g px py.
+Proof. exact seg_d2_outside_box. Qed.
+Print Assumptions c03_far_from_box.
+
+(* the ideal score of a TRUE candidate is at least w(r2) kappa - A w(R2) - eps ... *)
+Theorem c03_ideal_true_score_bound :
+  forall n_animals vis score sigma eps seg_of pts dirx diry pen k e r2 R2 kappa P m n,
+  geo_edge n_animals vis score sigma eps seg_of pts dirx diry pen k e r2 R2 kappa P m n ->
+  forall a, In a (both n_animals vis e) ->
+  true_bound n_animals vis sigma eps e r2 R2 kappa <= Q2R (sck score k a a).
+Proof. exact geo_true_score. Qed.
+Print Assumptions c03_ideal_true_score_bound.
+
+(* ... the score of a CROSS candidate lies in [-(m/n + A w(R2) + eps) - P, m/n + A w(R2) + eps] *)
+Theorem c03_ideal_cross_score_bound :
+  forall n_animals vis score sigma eps seg_of pts dirx diry pen k e r2 R2 kappa P m n,
+  geo_edge n_animals vis score sigma eps seg_of pts dirx diry pen k e r2 R2 kappa P m n ->
+  forall a b, In a (srcs n_animals vis e) -> In b (dsts n_animals vis e) -> a <> b ->
+  - (cross_bound n_animals vis sigma eps e R2 m n + P) <= Q2R (sck score k a b)
+    <= cross_bound n_animals vis sigma eps e R2 m n.
+Proof. exact geo_cross_score. Qed.
+Print Assumptions c03_ideal_cross_score_bound.
+
+(* ... so the geometric premise + the numeric margin give the separation premise of (d) *)
+Theorem c03_geometry_gives_separation :
+  forall n_animals vis score mls sigma eps seg_of pts dirx diry pen k e r2 R2 kappa P m n,
+  geo_edge n_animals vis score sigma eps seg_of pts dirx diry pen k e r2 R2 kappa P m n ->
+  3 * cross_bound n_animals vis sigma eps e R2 m n + P < true_bound n_animals vis sigma eps e r2 R2 kappa ->
+  cross_bound n_animals vis sigma eps e R2 m n < Q2R mls ->
+  Q2R mls <= true_bound n_animals vis sigma eps e r2 R2 kappa ->
+  separated n_animals vis score mls k e.
+Proof. exact geo_separated. Qed.
+Print Assumptions c03_geometry_gives_separation.
+
+(* saturated edge type: any rational threshold between the two bounds suffices (no factor 3, no P) *)
+Theorem c03_geometry_gives_separation_saturated :
+  forall n_animals vis score mls sigma eps seg_of pts dirx diry pen k e r2 R2 kappa P m n,
+  geo_edge n_animals vis score sigma eps seg_of pts dirx diry pen k e r2 R2 kappa P m n ->
+  forall Tq : Q,
+  cross_bound n_animals vis sigma eps e R2 m n < Q2R Tq -> Q2R Tq <= true_bound n_animals vis sigma eps e r2 R2 kappa ->
+  Q2R mls <= true_bound n_animals vis sigma eps e r2 R2 kappa ->
+  length (true_pairs (srcs n_animals vis e) (dsts n_animals vis e))
+  = Nat.min (length (srcs n_animals vis e)) (length (dsts n_animals vis e)) ->
+  separated n_animals vis score mls k e.
+Proof. exact geo_separated_saturated. Qed.
+Print Assumptions c03_geometry_gives_separation_saturated.
+
+(* the premise of c03_reassembly_from_geometry, spelled out *)
+Theorem c03_geo_premise_def :
+  forall n_animals vis score mls sigma eps seg_of pts dirx diry pen k e,
+  geo_premise n_animals vis score mls sigma eps seg_of pts dirx diry pen k e <->
+  exists r2 R2 kappa P m n,
+    geo_edge n_animals vis score sigma eps seg_of pts dirx diry pen k e r2 R2 kappa P m n /\
+    Q2R mls <= true_bound n_animals vis sigma eps e r2 R2 kappa /\
+    ((3 * cross_bound n_animals vis sigma eps e R2 m n + P < true_bound n_animals vis sigma eps e r2 R2 kappa /\
+      cross_bound n_animals vis sigma eps e R2 m n < Q2R mls)
+     \/
+     (exists Tq : Q,
+        (cross_bound n_animals vis sigma eps e R2 m n < Q2R Tq <= true_bound n_animals vis sigma eps e r2 R2 kappa) /\
+        length (true_pairs (srcs n_animals vis e) (dsts n_animals vis e))
+        = Nat.min (length (srcs n_animals vis e)) (length (dsts n_animals vis e)))).
+Proof. intros. reflexivity. Qed.
+Print Assumptions c03_geo_premise_def.
+
+(* saturated edge types: any threshold T (not only min_line_scores) between cross and true scores *)
+Theorem c03_separated_from_threshold : forall n_animals vis score (mls T : Q) k e,
+  all_finite n_animals vis score k e ->
+  (forall a, In a (srcs n_animals vis e) -> In a (dsts n_animals vis e) ->
+     (mls <= sck score k a a /\ T <= sck score k a a)%Q) ->
+  (forall a b, In a (srcs n_animals vis e) -> In b (dsts n_animals vis e) -> a <> b -> (sck score k a b < T)%Q) ->
+  length (true_pairs (srcs n_animals vis e) (dsts n_animals vis e))
+  = Nat.min (length (srcs n_animals vis e)) (length (dsts n_animals vis e)) ->
+  separated n_animals vis score mls k e.
+Proof. exact separated_from_threshold. Qed.
+Print Assumptions c03_separated_from_threshold.
+
+(* EXACT REASSEMBLY FROM GEOMETRY: c03_reassembly_partial with the separation hypothesis replaced
+   by the geometric premise on the ideal PAFs (per edge type, with its own parameters) *)
+Theorem c03_reassembly_from_geometry :
+  forall (edges : list (nat * nat)) (n_animals : nat) (vis : nat -> nat -> bool)
+         (score : nat -> nat -> nat -> option Q) (mls : Q) (matching : nat -> list (nat * nat))
+         (sigma eps : R) (seg_of : nat -> nat -> seg) (pts : nat -> nat -> nat -> list (R * R))
+         (dirx diry pen : nat -> nat -> nat -> R),
+  (forall k e, nth_error edges k = Some e -> all_finite n_animals vis score k e ->
+     optimal (srcs n_animals vis e) (dsts n_animals vis e) (sck score k) (matching k)) ->
+  (forall k e, nth_error edges k = Some e ->
+     geo_premise n_animals vis score mls sigma eps seg_of pts dirx diry pen k e) ->
+  forall output : list instance,
+  (forall I, In I output ->
+     exists p, member p I /\ (forall q, member q I <-> conn edges score mls matching p q) /\
+               (exists q, q <> p /\ member q I)) ->
+  (forall p q, adj edges score mls matching p q -> exists I, In I output /\ member p I) ->
+  (forall i j I J p, nth_error output i = Some I -> nth_error output j = Some J ->
+     member p I -> member p J -> i = j) ->
+  (forall I, In I output ->
+     exists a j0, (a < n_animals)%nat /\ vis a j0 = true /\
+       (forall b j, member (b, j) I <-> b = a /\ vconn edges vis a j0 j) /\
+       (exists j1, j1 <> j0 /\ vconn edges vis a j0 j1))
+  /\
+  (forall a i j, (a < n_animals)%nat -> vedge edges vis a i j ->
+     exists n I, nth_error output n = Some I /\ member (a, i) I /\ member (a, j) I /\
+       forall n' I', nth_error output n' = Some I' -> member (a, i) I' -> n' = n).
+Proof. exact reassembly_from_geometry. Qed.
+Print Assumptions c03_reassembly_from_geometry.
+
+(* the geometric premise is satisfiable (one animal, segment (0,0)->(10,0), sigma 15, R2 = 100,
+   three cells on the segment, tolerance 1/20) and yields separation at min_line_scores 3/10 *)
+Example ex_c03_geometry_nonvacuous :
+  separated 1 (fun _ _ => true) (fun _ _ _ => Some 1%Q) (3 # 10) 0 (0, 1)%nat.
+Proof. exact ex_geo_separated. Qed.
+Local Close Scope R_scope.
+Local Open Scope Q_scope.
 
 (* ------------------------------------------------------------------ (e) the executable groups *)
 Theorem c03_component_spec : forall n es vis j x,
